@@ -137,10 +137,10 @@ func hasProp(c *Contract, id string) bool {
 }
 
 var panicOnlyKinds = map[string]bool{"index": true, "slice": true, "div": true, "extern-requires": true, "panic": true,
-	"make": true, "shift": true, "nil-map": true}
+	"make": true, "shift": true, "nil-map": true, "nil-result": true}
 
 var panicKinds = map[string]bool{"index": true, "slice": true, "div": true, "extern-requires": true, "panic": true,
-	"make": true, "shift": true, "nil-map": true, "requires": true}
+	"make": true, "shift": true, "nil-map": true, "requires": true, "nil-result": true}
 
 func propMain(args []string, o RunOpts, tier string) int {
 	if len(args) < 1 {
